@@ -17,11 +17,11 @@ for d in otlplog/otlploghttp otlplog/otlploggrpc; do
 done
 for d in otlptrace/otlptracehttp otlptrace/otlptracegrpc; do
   dst=contracts/go.opentelemetry.io/otel/exporters/otlp/$d/internal/otlpconfig
-  mkdir -p $dst && sed "s/PKGNAME/otlpconfig/" templates/otlpconf.contract > $dst/verif_contracts.go
+  mkdir -p $dst && sed "s/PKGNAME/otlpconfig/; s/SIGNAL_/TRACES_/" templates/otlpconf.contract > $dst/verif_contracts.go
 done
 for d in otlpmetric/otlpmetrichttp otlpmetric/otlpmetricgrpc; do
   dst=contracts/go.opentelemetry.io/otel/exporters/otlp/$d/internal/oconf
-  mkdir -p $dst && sed "s/PKGNAME/oconf/" templates/otlpconf.contract > $dst/verif_contracts.go
+  mkdir -p $dst && sed "s/PKGNAME/oconf/; s/SIGNAL_/METRICS_/" templates/otlpconf.contract > $dst/verif_contracts.go
 done
 for d in otlptrace/otlptracehttp otlptrace/otlptracegrpc otlpmetric/otlpmetrichttp otlpmetric/otlpmetricgrpc; do
   dst=contracts/go.opentelemetry.io/otel/exporters/otlp/$d/internal/envconfig
